@@ -12,7 +12,7 @@
                                        -- no try/finally: an error in the final save leaves the handle open
                                        -- the external `h5repack` run after File.close() is not modelled (see notes/C10.md)
      Workspace.__exit__                close(), returns None (the exception propagates)
-     Workspace.save_as                 close(); copy bytes; open()
+     Workspace.save_as                 close(); checks on the target and copy of the bytes (may raise: SaveAsFail); _h5file := target; open()
      shared/utils.fetch_active_workspace(ws, mode)   keep when open and `mode in ws.geoh5.mode` (substring test); else close when
                                        open, open(mode), body, finally close
      ui_json/utils.path2workspace      Workspace(path, mode="r"); close()
@@ -231,9 +231,11 @@ Inductive op :=
   | Path2Workspace                                 (* helper on a path: a second Workspace(path, mode="r") opened and closed *)
   | MonitoredCopy (body : list iocall)             (* monitored_directory_copy(entity of this workspace) *)
   | CallsThenRaise (cs : list iocall)              (* an operation whose own Python code raises after (or without) its _io_call's *)
-  | MemRepack.                                     (* Python-level effect without file access: concatenated attributes edited in
+  | MemRepack                                      (* Python-level effect without file access: concatenated attributes edited in
                                                       memory set Workspace.repack (also when the write that follows is refused,
                                                       also on a closed workspace) *)
+  | SaveAsFail.                                    (* save_as / create whose target cannot be written (missing directory, existing
+                                                      file, wrong suffix): the workspace has been closed, then the copy raises *)
 
 Definition seq (a : world * option err) (f : world -> world * option err) : world * option err :=
   match a with
@@ -273,6 +275,7 @@ Definition step (w : world) (o : op) : world * option err :=
                          | r => r
                          end
   | MemRepack => (set_repack w true, None)
+  | SaveAsFail => seq (close w) (fun w1 => (w1, Some EFail))
   end.
 
 (* a script: every operation is attempted, exceptions are caught by the caller; outcomes are recorded *)
